@@ -25,7 +25,7 @@ NAME = "runner"
 def generate(seed, tier, opts):
     d = Decider(seed, "runner")
     real = d.chance("real", float(opts.get("real_frac", 0.03)))
-    th, op = cards.gen_cards(d, real=real, max_targets=3 if real else 5)
+    th, op = cards.gen_cards(d, real=real, max_targets=3 if real else 5, allow_dup=True)
     if real and th["order"][0] > 1:
         op["mugrid"] = op["mugrid"][:2]
     return dict(seed=int(seed), physics="real" if real else "stub", theory=th, operator=op, cores=d.pick("cores", [1, 1, 2, 3]) if real else 1, cpu=d.between("cpu", 2, 8))
@@ -145,7 +145,7 @@ def execute(case):
                 if not any(b[0] == kind and fp.block_matches_header(b, kind, h) for b in required):
                     viol.append(dict(cls="extra-part", key=f"extra-part:{where}", msg=f"archived {where} entry {h} is not on the path of any target (reference blocks: {required})"))
         # ---------------------------------------------------------------- (0) targets
-        want = sorted((mu**2, nf) for mu, nf in case["operator"]["mugrid"])
+        want = sorted(set((mu**2, nf) for mu, nf in case["operator"]["mugrid"]))
         if len(ops) != len(want) or any(not any(fp.feq(a[0], b[0]) and a[1] == b[1] for b in ops) for a in want):
             viol.append(dict(cls="targets-differ", key="targets-differ", msg=f"archived operators {sorted(ops)} vs requested targets {want}"))
         # ---------------------------------------------------------------- (3) ordered product
